@@ -657,15 +657,19 @@ def c07(tier):
                         "determinism": "each workload run twice in one process must be byte-identical"},
               "thorough": {"interleavings": "also three workloads, schedules of 9 booleans"}},
       outside="NOT CLAIMED: pre-emptive THREAD schedules (CrossHair executes one thread; no symbolic thread scheduler for CPython is available) and determinism across PROCESSES / PYTHONHASHSEED values (the seed is fixed before the interpreter starts and cannot be a symbolic variable)",
-      explanation="H-INTERLEAVE (reduced scope: generator-step interleavings and same-process determinism only)")
+      explanation="H-INTERLEAVE (reduced scope: generator-step interleavings and same-process determinism only)",
+      sample_k=6, sample_every_unit=True)
 def c12(tier):
     us = []
     combos = [[["ser", "A"], ["ser", "B"]], [["ser", "A"], ["parse", "B"]], [["parse", "A"], ["parse", "B"]], [["ser", "A"], ["ser", "A"]],
               [["sstream", "A"], ["sstream", "C"]], [["stream", "A"], ["stream", "B"]],
-              [["parse", "D"], ["parse", "E"]], [["dsflow", "B"], ["ser", "A"]], [["lstream", "A"], ["stream", "C"]]]
+              [["parse", "D"], ["parse", "E"]], [["dsflow", "B"], ["ser", "A"]], [["lstream", "A"], ["stream", "C"]],
+              [["parse", "G1"], ["parse", "G2"]]]
     for integ in ("generic", "rdflib"):
         for ci, ws in enumerate(combos):
-            for hh in range(3):
+            if tier == "quick" and integ == "rdflib" and ci not in (2, 4, 6, 9):
+                continue   # the serializer-side workloads differ between the integrations only in term construction
+            for hh in ((0, 2) if tier == "quick" else (0, 1, 2)):
                 us.append(U(f"interleave:{integ}:c{ci}:h{hh}", "interleave", "interleave", dict(integ=integ, workloads=ws, steps=7, h=hh), timeout=900))
         if tier != "quick":
             for hh in range(3):
